@@ -10,3 +10,23 @@ Definition cli_accepts (file cmd mod_ eval_ : bool) : bool := count_given [file;
    section is its to_json_data *)
 Definition cli_data {D} (normalize : D -> D) (no_normalize : bool) (d : D) : D :=
   if no_normalize then d else normalize d.
+
+(* What main() prints, in order, as a function of the output flags.  The value shown at each point is
+   symbolic: the decoded data of the program, or its normal form. *)
+Inductive dval := VDecoded | VNormalized (v : dval).
+Inductive action :=
+| APrintSource                 (* --source, when the source text is available *)
+| ADis                         (* --dis: show_code + dis.dis of the compiled code object *)
+| APrint (v : dval)            (* the data, always *)
+| AJson (v : dval)             (* --json: to_json_data of the value *)
+| ADisAfter (v : dval).        (* --dis-after: show_code + dis.dis of to_code of the value *)
+
+Definition cli_value (no_normalize : bool) : dval := if no_normalize then VDecoded else VNormalized VDecoded.
+Definition cli_actions (show_dis show_source show_dis_after no_normalize json has_source : bool) : list action :=
+  (if show_source && has_source then [APrintSource] else []) ++ (if show_dis then [ADis] else []) ++
+  [APrint (cli_value no_normalize)] ++ (if json then [AJson (cli_value no_normalize)] else []) ++
+  (if show_dis_after then [ADisAfter (cli_value no_normalize)] else []).
+
+(* the symbolic value denotes: *)
+Fixpoint dval_denote {D} (normalize : D -> D) (v : dval) (d : D) : D :=
+  match v with VDecoded => d | VNormalized v' => normalize (dval_denote normalize v' d) end.
